@@ -535,6 +535,11 @@ func c32lRun(c *vcommon.Case, cfg c32lCfg) {
 		c.Eval(1)
 		if perr != nil {
 			c.Count("loop_process_errors", 1)
+			msg := perr.Error()
+			if len(msg) > 70 {
+				msg = msg[:70]
+			}
+			c.Count("loop_process_error: "+msg, 1)
 			lines = append(lines, "  Process error: "+perr.Error())
 		}
 		for _, rp := range batch {
